@@ -66,7 +66,10 @@ def impl_case(case):
     S = np.asarray(M.py_get_update_array()); Sd = np.asarray(M.py_get_delay_update_array())
     I = ModelCSimInterface(M); I.py_prep_deterministic_simulation()
     ds = []; rates = []
-    for pt in case["points"]:
+    for k_pt, pt in enumerate(case["points"]):
+        # the derivative is a function of (state, time) only: preparing the same interface again between evaluations (as every
+        # deterministic simulation through a user-held interface does) must not change it  (seeded change S3_C03)
+        if k_pt >= 1: I.py_prep_deterministic_simulation()
         x = np.zeros(len(s2i))
         for s, v in pt["x"].items():
             if s in s2i: x[s2i[s]] = v
